@@ -18,6 +18,8 @@ R-C08.4  CFG construction: dead code after a jump hangs off the block that jumpe
          unreachable->reachable edges symmetrically.
 R-C08.5  path-dependent types: check_rows_match raises iff some variable's type differs between the
          two rows (all small row pairs, c08_rows.py below); check_cfg compares revisited blocks.
+R-C08.6  per-block summaries: a name counts as used by a block only if it is read before the block assigns it
+         (c08_blockuse.py, below).
 Not decided: that the CFG has exactly Python's paths.
 """
 
@@ -188,6 +190,10 @@ def run(ctx: Ctx) -> None:
     # ------------------------------------------------------------ R-C08.5 path-dependent types
     from . import c08_rows
     c08_rows.run(ctx)
+
+    # ------------------------------------------------------------ R-C08.6 per-block use/assign summaries
+    from . import c08_blockuse
+    c08_blockuse.run(ctx)
 
 
 def _exprs(n):
